@@ -147,6 +147,14 @@ def c06_tree():
             <field name="b" type="short"/>
         </chunked>
     </struct>
+    <struct name="AfterChunk">
+        <chunked>
+            <field name="inside" type="string"/>
+            <break/>
+        </chunked>
+        <field name="flag" type="char"/>
+        <field name="tail" type="string"/>
+    </struct>
     <struct name="InnerPlain">
         <field name="a" type="string" length="3"/>
         <field name="b" type="short"/>
@@ -160,6 +168,7 @@ def c06_tree():
             <break/>
             <field name="inner" type="%s"/>
             <break/>
+            <field type="string" length="3">\u00ffes</field>
             <field name="s2" type="string"/>
             <break/>
             <field name="kind" type="char"/>
@@ -232,9 +241,9 @@ def run_generated(plan, env, res, tr, fail):
     body = out[len(hb):]
     kchunk = [("char", kind)] + ([("s", g.get("note", ""))] if kind == 1 else [])
     if g["variant"] == "InnerChunked":
-        chunks = [[("s", g["s1"])], [("s", g["a"])], [("short", g["b"])], [("s", g["s2"])], kchunk, [("three", g["k"]), ("e", g["s3"])]]
+        chunks = [[("s", g["s1"])], [("s", g["a"])], [("short", g["b"])], [("f3", "\u00ffes"), ("s", g["s2"])], kchunk, [("three", g["k"]), ("e", g["s3"])]]
     else:
-        chunks = [[("s", g["s1"])], [("f3", g["a"]), ("short", g["b"])], [("s", g["s2"])], kchunk, [("three", g["k"]), ("e", g["s3"])]]
+        chunks = [[("s", g["s1"])], [("f3", g["a"]), ("short", g["b"])], [("f3", "\u00ffes"), ("s", g["s2"])], kchunk, [("three", g["k"]), ("e", g["s3"])]]
     if body.count(0xFF) != len(chunks) - 1:
         return fail("break-in-payload", "generated-serializer",
                     f"{pkt_cls.__name__} wrote {body.count(0xFF)} break bytes after the header for {len(chunks)} chunks: "
